@@ -15,10 +15,12 @@
 package main
 
 import (
+	"encoding/json"
 	"errors"
 	"fmt"
 	"io"
 	"net/http"
+	"os"
 	"sort"
 	"strings"
 	"time"
@@ -44,7 +46,7 @@ type fakeList struct {
 }
 
 func (l *fakeList) Resolve() stringset.Set { return l.cur.Copy() }
-func (l *fakeList) Failed(addr string)      { l.failed = append(l.failed, addr) }
+func (l *fakeList) Failed(addr string)     { l.failed = append(l.failed, addr) }
 
 type answer struct {
 	name string
@@ -71,8 +73,8 @@ type execState struct {
 	answers  []answer
 	limit    int             // distinct hosts the statement allows for this call
 	seen     map[string]bool // distinct hosts so far
-	contacts []string // host of every round trip, in order
-	given    []string // answer names, in order
+	contacts []string        // host of every round trip, in order
+	given    []string        // answer names, in order
 }
 
 var cur *execState
@@ -397,6 +399,37 @@ func checkSample(run *evid.Run) {
 	run.Sample(map[string]interface{}{"sample": "Sample(n) on sets of size 0.." + fmt.Sprint(maxSize) + " x n 0.." + fmt.Sprint(maxN)})
 }
 
+// ---------------------------------------------------------------- replay
+
+// replay re-executes the schedule of a replay file written for a vrt violation.
+func replay(run *evid.Run, path string) {
+	b, err := os.ReadFile(path)
+	if err != nil {
+		run.Fatal(err)
+	}
+	var f struct {
+		Case struct {
+			Harness string
+			Choices []int
+		} `json:"case"`
+	}
+	if err := json.Unmarshal(b, &f); err != nil {
+		run.Fatal(err)
+	}
+	for _, h := range allHarnesses(true) {
+		if h.Name == f.Case.Harness {
+			_, obs, vio := vrt.Replay(h, f.Case.Choices)
+			fmt.Printf("replay %s choices %v\n  observation: %s\n", h.Name, f.Case.Choices, obs)
+			if vio != "" {
+				fmt.Printf("  => %s\n", vio)
+				os.Exit(1)
+			}
+			os.Exit(0)
+		}
+	}
+	run.Fatal(fmt.Errorf("replay: no harness %q (Sample violations are replayed by calling Sample with the recorded set_size/n)", f.Case.Harness))
+}
+
 // ---------------------------------------------------------------- main
 
 func main() {
@@ -411,6 +444,10 @@ func main() {
 	run.Assume("http.DefaultTransport is replaced by a recording fake: a connection-level failure is modelled as a RoundTrip error (what httputil wraps as NetworkError)")
 	run.Assume("which hosts are drawn is decided by Go's randomised map iteration; the oracle (count of distinct hosts, membership) must hold for every draw and answers are indexed by contact number, so one execution per answer sequence decides the clause for every draw")
 	run.Assume("small-scope: host lists of the sizes listed in coverage.list_sizes; set sizes for Sample as in the rule")
+
+	if rp := run.ReplayPath(); rp != "" {
+		replay(run, rp)
+	}
 
 	checkSample(run)
 
